@@ -7,6 +7,12 @@ import (
 	"golang.org/x/tools/go/ssa"
 )
 
+// IteV is a guarded choice between two values that have no term representation.
+type IteV struct {
+	c    T
+	a, b Value
+}
+
 // MPtr is a guarded set of concrete pointers (a symbolic pointer).
 type MPtr struct {
 	cands []Ptr
@@ -197,8 +203,13 @@ func (e *Engine) iteVal(c T, a, b Value) Value {
 		return e.mptrIte(c, a, b)
 	case nil:
 		return nil
+	case IteV:
+		return IteV{c: c, a: a, b: b}
 	case IfaceV:
-		y := b.(IfaceV)
+		y, ok := b.(IfaceV)
+		if !ok {
+			return IteV{c: c, a: a, b: b}
+		}
 		if x.typ == nil && y.typ == nil {
 			return x
 		}
@@ -208,16 +219,15 @@ func (e *Engine) iteVal(c T, a, b Value) Value {
 			}
 		}
 	case SliceV:
-		y := b.(SliceV)
-		if x == y {
+		if y, ok := b.(SliceV); ok && x == y {
 			return x
 		}
 	case MapV:
-		if x == b.(MapV) {
+		if y, ok := b.(MapV); ok && x == y {
 			return x
 		}
 	case StringV:
-		if x == b.(StringV) {
+		if y, ok := b.(StringV); ok && x == y {
 			return x
 		}
 		return StringV{s: "<merged>", opaque: true}
@@ -226,11 +236,15 @@ func (e *Engine) iteVal(c T, a, b Value) Value {
 			return x
 		}
 	case RValue:
-		if x == b.(RValue) {
+		if y, ok := b.(RValue); ok && x == y {
 			return x
 		}
 	case OpaqueV:
 		return x
+	}
+	switch a.(type) {
+	case IfaceV, SliceV, MapV, ClosureV, StringV, RValue, IteV:
+		return IteV{c: c, a: a, b: b}
 	}
 	panic(engineError{fmt.Sprintf("cannot merge values of type %T under a symbolic guard at %s", a, e.site)})
 }
@@ -540,6 +554,16 @@ func (e *Engine) flushPanicAcc() {
 	e.panicAcc = tbool(false)
 	e.accOn = false
 	if acc.isFalse() {
+		return
+	}
+	if e.accLib {
+		e.site = "panic condition of merged library code"
+		lib := e.accLib
+		e.accLib = false
+		if e.branch(acc) {
+			panic(goPanic{"panic in merged library code: " + strings.Join(e.panicMsgs, "; ")})
+		}
+		e.accLib = lib
 		return
 	}
 	if e.s.checkWith(acc) != "unsat" {
